@@ -219,3 +219,30 @@ Example verified_config_example :
   verify false cfg = true /\ samples_ok 16 [1; -2; 3; 4]%Z = true /\
   N.of_nat (length (chunks (N.to_nat (16 * 1)) [1; -2; 3; 4]%Z)) <= 2 ^ 31.
 Proof. cbv zeta. split; [vm_compute; reflexivity|]. split; [vm_compute; reflexivity|]. vm_compute. discriminate. Qed.
+
+(* ---- the frame-level entry point: its own argument checks supply the range hypotheses ---- *)
+Section FrameEntry.
+  Variable ent : N -> N -> N -> N.
+  Variable qlpc : N -> N -> qparams.
+
+  Theorem fixed_size_frame_end_to_end cfg rate channels bps fi number block f si bytes rest n :
+    encode_fixed_size_frame ent qlpc cfg rate channels bps fi number block = Ok f ->
+    cfg_max_parameter cfg <= 14 -> In bps [8; 12; 16; 20; 24] -> rate < 2 ^ 32 -> 1 <= channels <= 8 ->
+    (1 <= n)%nat -> N.of_nat n <= c_MAX_BLOCK_SIZE ->
+    block_hyps qlpc cfg fi channels bps block n ->
+    i_rate si = rate -> i_bps si = bps ->
+    Forall (fun x => x < 256) rest ->
+    frame_bytes f = Ok bytes ->
+    number < 2 ^ 31 /\
+    exists ctag, read_frame si (bytes ++ rest) = Some (mkFH (N.of_nat n) ctag number (rate mod 2 ^ 32) bps, chans channels block, rest).
+  Proof.
+    intros E Hmp Hbps Hrate Hch Hn1 Hn Hblk Hsr Hsb Hrest Hfb.
+    unfold encode_fixed_size_frame in E.
+    destruct (N.leb_spec (2 ^ 31) number) as [?|Hnum]; [discriminate|].
+    destruct (samples_ok bps block) eqn:Hso; cbn [negb] in E; [|discriminate].
+    destruct (samples_ok_chans bps channels block Hbps Hso) as [Hbound Hrange].
+    split; [exact Hnum|].
+    apply (frame_end_to_end ent qlpc cfg rate channels bps fi number block f si bytes rest n E Hmp Hbps Hrate Hch
+             ltac:(change (2 ^ 31) with 2147483648 in Hnum; change (2 ^ 36) with 68719476736; lia) Hn1 Hn Hblk Hbound Hrange Hsr Hsb Hrest Hfb).
+  Qed.
+End FrameEntry.
